@@ -27,6 +27,9 @@ CLAIMS = {
  "C09": ("Structural clauses only: every read of the 16 *_be/*_le entry points through a pointer whose size the caller passed stays inside that size; exporter/importer layout agreement for all encodings (size, prefix, coordinate offsets and lengths, parity bit handed to the root selection, neutral element), rejection of unknown sizes/prefixes, reported size equals bytes written; with validation enabled every accepting importer path passes ec_point_check_as_pub_key (on-curve and order checks) and a failing status cannot reach success; root parity selection in ec_point_restore_y_by_x; point->infinity defined before validation on finite arms; _be/_le sibling agreement. Numerical agreement of key generation / Diffie-Hellman with a reference and DH symmetry are NOT decided.",
          "Trusts clang 14 front end/CFG; bn_import_*_bin reads exactly its length argument, bn_export_*_bin writes exactly its length argument; unsized output buffers are as large as the header comment demands.",
          "static analysis: relational abstract interpretation of the byte API, partial evaluation of exporter and importer CFGs over finite argument classes (writer/reader table agreement), must-pass-through on the CFG, sibling comparison"),
+ "C15": ("Structural clauses only: pointer/length agreement at call sites with constant lengths; every attribute class of radius_pkt_attr_add can succeed; the byte streams fed to MD5/HMAC-MD5 for the Request/Response Authenticator and the Message-Authenticator equal the RFC 2865/2866/3579/5176 streams for all 14 packet codes x authenticator mode x request presence x in-place output (342 cases), unknown codes fail, digest lands in the output argument; RFC 2865 5.2 password hiding equations for 1..3 blocks in encode and decode, separate and in-place buffers; DNS question/RR writer-reader agreement of field addresses, widths, byte orders and sizes; RADIUS append keeps header length and attribute length in step; QDCOUNT bumped exactly once on success; 16 header accessors are siblings; digests compared with timingsafe_bcmp. Whole-message byte identity with an independent RFC encoder, digest values and name round trips are NOT decided.",
+         "Trusts clang 14 front end/CFG; the RFC streams as transcribed in props/c15.py; MD5/HMAC contexts behave as init/update*/final (C07).",
+         "static analysis: partial evaluation of the builder/authenticator CFGs per argument class with a symbolic byte-content model (hash-input streams, hiding equations, writer/reader layouts), call-site pointer/length rule, path enumeration, sibling comparison"),
  "C10": ("Structural clauses only: the shared countdown field is accessed under its lock after publication (lock-set dataflow), pre-publication accesses cannot follow a send; no dereference of the shared record after the countdown's unlock (the clause 'does not touch the caller's memory afterwards'); the heap record of the completion form is freed/handed over on every path; per-target sent/failed accounting and returned failure count; single completion site guarded by zero that frees after the user callback; one-by-one token order. Once-per-thread / completion-after-all under interleavings is NOT decided.",
          "Trusts clang 14 CFG, pthread mutex semantics, tpt_msg_send returning 0 = ownership transferred.",
          "static analysis: lock-set dataflow, reachability after release point, path enumeration for ownership and accounting"),
